@@ -225,9 +225,26 @@ class UnitBuilder:
         # parameter names of the C++ declaration must be the ones the unit describes (a renamed
         # parameter is an extraction break, not a silent mismatch)
         pnames = [re.sub(r'.*?(\w+)\s*(=[^,]*)?$', r'\1', p.strip()) for p in _split_params(f['params']) if p.strip()]
-        for p in fd.params:
-            if p not in pnames:
-                raise ExtractionBreak('%s: parameter %s not found in C++ declaration (%s)' % (key, p, pnames))
+        missing = [p for p in fd.params if p not in pnames]
+        if missing:
+            # a renamed parameter: when the unit describes every parameter of the declaration (same count, same order) the C++ names are
+            # mapped back positionally to the names the contract uses, provided the contract's name is not otherwise used in the body;
+            # anything else stays an extraction break, never a silent mismatch
+            unit_names = list(fd.params)
+            body_txt = f['body'] + (f['init'] or '')
+            if len(unit_names) != len(pnames) or any(un in pnames and pnames.index(un) != i for i, un in enumerate(unit_names)):
+                raise ExtractionBreak('%s: parameter %s not found in C++ declaration (%s)' % (key, missing[0], pnames))
+            for un, cn in zip(unit_names, pnames):
+                if un == cn:
+                    continue
+                if re.search(r'\b%s\b' % re.escape(un), body_txt) or cn in unit_names:
+                    raise ExtractionBreak('%s: parameter %s renamed to %s in the C++ declaration and %s is used otherwise in the body' % (key, un, cn, un))
+            f = dict(f)
+            for un, cn in zip(unit_names, pnames):
+                if un != cn:
+                    f['body'] = re.sub(r'\b%s\b' % re.escape(cn), un, f['body'])
+                    if f['init']:
+                        f['init'] = re.sub(r'\b%s\b' % re.escape(cn), un, f['init'])
         ctx = self.base_ctx(fd.self_cls)
         ctx.typemap = dict(self.fam.typemap)
         ctx.typemap.update(fd.typemap)
